@@ -372,6 +372,44 @@ inline void casePrimitives(vh::Rng &r, bool thorough) {
     freeAll(w);
 }
 
+// `treeRoot->updateConnEnds(nullptr, true, changed)` as in HyperedgeImprover::execute (there only when major
+// changes are allowed): the connectors' ends before and after, and the changed list.
+//   hop <i> upd <root>;  hends <i> <conn>:<S>:<D> ..  (S, D = J<junction> | E | O);  hends2 <i> ..;  hchg <i> <conn> ..
+inline std::string endStr(World &w, const ConnEnd &e) {
+    if (e.type() == ConnEndJunction && e.junction()) { std::ostringstream o; o << "J" << w.idOf(e.junction()); return o.str(); }
+    if (e.type() == ConnEndEmpty) return "E";
+    return "O";
+}
+inline void printEnds(World &w, const char *key, int i, const std::set<ConnRef *> &conns) {
+    printf("%s %d", key, i);
+    for (auto &p : w.cById) {
+        if (!conns.count(p.second)) continue;
+        std::pair<ConnEnd, ConnEnd> ce = p.second->endpointConnEnds();
+        printf(" %ld:%s:%s", p.first, endStr(w, ce.first).c_str(), endStr(w, ce.second).c_str());
+    }
+    printf("\n");
+}
+inline void updateEnds(World &w, int i) {
+    JunctionSet &roots = w.imp.*get(TRoots());
+    if (roots.empty()) return;
+    JunctionHyperedgeTreeNodeMap &jm = w.imp.*get(TJunctions());
+    if (jm.find(*roots.begin()) == jm.end()) return;
+    HyperedgeTreeNode *root = jm[*roots.begin()];
+    rediscover(w, root);
+    std::set<ConnRef *> conns;
+    for (HyperedgeTreeEdge *e : w.edges) { if (!e->conn) return; conns.insert(e->conn); }
+    printf("hop %d upd %ld\n", i, w.idOf(root));
+    printEnds(w, "hends", i, conns);
+    fflush(stdout);
+    ConnRefList changed;
+    root->updateConnEnds(nullptr, true, changed);
+    printEnds(w, "hends2", i, conns);
+    printf("hchg %d", i);
+    for (ConnRef *c : changed) printf(" %ld", w.idOf(c));
+    printf("\n");
+    dump(w, i, "dfs", root);
+}
+
 // The conversion back: `root->writeEdgesToConns(nullptr, 0); root->writeEdgesToConns(nullptr, 1);` as at the end
 // of HyperedgeImprover::execute (without updateConnEnds: the destination ends the connectors really have are
 // printed, the model gets them as input).  Run in a child process: the library asserts
@@ -500,6 +538,7 @@ inline void caseRewrites(vh::Rng &r, bool thorough, int flavour) {
             }
         }
     }
+    updateEnds(w, ++i);
     writeBack(w, ++i);
     freeAll(w);
 }
